@@ -56,6 +56,7 @@
 extern "C" {
 void vp_c19_model_limit(bool ok);
 bool vp_c19_false();
+void vp_c19_sym_bytes_n(QByteArray *out, unsigned n);
 void vp_c19_dev_init(void *dev, bool open, bool wfail);
 void vp_c19_dev_source(const QByteArray *ba);
 unsigned vp_c19_dev_wcalls(); unsigned vp_c19_dev_wlen(); unsigned char vp_c19_dev_wbyte(unsigned i);
@@ -86,17 +87,54 @@ static char g_clientRaw[64];
 static char g_devRaw[64];
 static QIODevice *theDevice() { return reinterpret_cast<QIODevice *>(g_devRaw); }
 
-// wire log: everything handed to QXmppClient::sendPacket, serialised by its REAL toXml into the writer tree model
-#define C19_LOGCAP 2
-static int g_nsent;
-static QDomElement g_sent[C19_LOGCAP];
+// wire log: everything handed to QXmppClient::sendPacket is serialised by its REAL toXml into the writer tree model and
+// classified on the spot against what the harness expects (set before the call).  Classifying inside the call keeps every DOM
+// pointer path-local (concrete) for symbolic execution; only scalars are merged.
+enum { K_NONE = 0, K_DATA, K_CLOSE, K_OPEN, K_ERROR, K_OTHER };                       // the single child of the iq
+enum { C_ITEM_NOT_FOUND = 1, C_UNEXPECTED_REQUEST, C_RESOURCE_CONSTRAINT, C_OTHER }; // stanza error condition
+enum { T_CANCEL = 1, T_MODIFY, T_OTHER };                                             // stanza error type
+enum { Y_ERROR = 0, Y_GET, Y_SET, Y_RESULT, Y_OTHER };
+struct Expect { QString to, id, sid, seq; QByteArray payload; const QString *idNow; };   // idNow: a string the id must equal at send time (or null)
+static Expect g_exp;
+struct Sent { int n, kind, type, cond, etype, nchildren; bool isIq, toOk, idOk, nsOk, sidOk, seqOk, payloadOk; };
+static Sent g_sent;
 bool QXmppClient::sendPacket(const QXmppNonza &p)
 {
     VpWriter w;
     p.toXml(w.writer());
-    vp_c19_model_limit(g_nsent < C19_LOGCAP);
-    g_sent[g_nsent] = w.root();
-    g_nsent++;
+    const QDomElement a = w.root();
+    g_sent.n++;
+    g_sent.isIq = a.tagName() == L("iq");
+    g_sent.toOk = a.attribute(L("to")) == g_exp.to;
+    const QString id = a.attribute(L("id"));
+    g_sent.idOk = g_exp.idNow ? id == *g_exp.idNow : id == g_exp.id;
+    const QString ty = a.attribute(L("type"));
+    g_sent.type = ty == L("error") ? Y_ERROR : ty == L("get") ? Y_GET : ty == L("set") ? Y_SET : ty == L("result") ? Y_RESULT : Y_OTHER;
+    g_sent.nchildren = int(vp_c19_dom_nchildren(&a));
+    g_sent.kind = K_NONE;
+    if (g_sent.nchildren >= 1) {
+        QDomElement c; vp_c19_dom_child(&c, &a, 0);
+        const QString tag = c.tagName();
+        const bool ibb = c.namespaceURI() == L("http://jabber.org/protocol/ibb");
+        if (tag == L("error")) {
+            g_sent.kind = K_ERROR;
+            const QString et = c.attribute(L("type"));
+            g_sent.etype = et == L("cancel") ? T_CANCEL : et == L("modify") ? T_MODIFY : T_OTHER;
+            QDomElement cc; vp_c19_dom_child(&cc, &c, 0);
+            const QString ct = cc.tagName();
+            g_sent.cond = vp_c19_dom_nchildren(&c) != 1 ? C_OTHER : ct == L("item-not-found") ? C_ITEM_NOT_FOUND : ct == L("unexpected-request") ? C_UNEXPECTED_REQUEST
+                        : ct == L("resource-constraint") ? C_RESOURCE_CONSTRAINT : C_OTHER;
+            g_sent.nsOk = cc.namespaceURI() == L("urn:ietf:params:xml:ns:xmpp-stanzas");
+        } else {
+            g_sent.kind = tag == L("data") ? K_DATA : tag == L("close") ? K_CLOSE : tag == L("open") ? K_OPEN : K_OTHER;
+            g_sent.nsOk = ibb;
+            g_sent.sidOk = c.attribute(L("sid")) == g_exp.sid;
+            if (g_sent.kind == K_DATA) {
+                g_sent.seqOk = c.attribute(L("seq")) == g_exp.seq;
+                g_sent.payloadOk = c.text() == QString::fromUtf8(g_exp.payload.toBase64());
+            }
+        }
+    }
     return vp_bool();   // sending may fail; the transfer logic must not depend on it
 }
 
@@ -199,21 +237,14 @@ static void symJob(QXmppTransferJobPrivate *d, JobPre &p, bool kfDemo = false)
     d->deviceIsOwn = false;   // accept(QIODevice*) / sendFile(jid, device, info): the caller owns the device
 }
 
-// exactly one stanza went out, an <iq/> reply to (from, id) of the given type; for errors: the condition element
-static void expectReply(const QString &to, const QString &id, bool result, const QString &condition, const QString &errType)
+// exactly one stanza went out: an <iq/> reply to (from, id), result or error with the given condition
+static void expectReply(bool result, int cond, int etype)
 {
-    vp_assert(g_nsent == 1, "C19 exactly one reply is sent per in-band bytestream request");
-    if (g_nsent != 1) return;
-    const QDomElement &a = g_sent[0];
-    vp_assert(a.tagName() == L("iq") && a.attribute(L("id")) == id && a.attribute(L("to")) == to, "C19 the reply is an iq with the request id, addressed to the sender of the request");
-    vp_assert(a.attribute(L("type")) == (result ? L("result") : L("error")), "C19 the reply type is result exactly when the request was accepted, error otherwise");
-    vp_assert(vp_c19_dom_nchildren(&a) == (result ? 0u : 1u), "C19 an acknowledgement is empty, an error reply carries exactly the error element");
-    if (!result) {
-        QDomElement e; vp_c19_dom_child(&e, &a, 0);
-        vp_assert(e.tagName() == L("error") && e.attribute(L("type")) == errType, "C19 error reply: <error/> with the expected type");
-        QDomElement c; vp_c19_dom_child(&c, &e, 0);
-        vp_assert(vp_c19_dom_nchildren(&e) == 1 && c.tagName() == condition && c.namespaceURI() == L("urn:ietf:params:xml:ns:xmpp-stanzas"), "C19 error reply: the expected stanza error condition");
-    }
+    vp_assert(g_sent.n == 1, "C19 exactly one reply is sent per in-band bytestream request");
+    vp_assert(g_sent.isIq && g_sent.idOk && g_sent.toOk, "C19 the reply is an iq with the request id, addressed to the sender of the request");
+    vp_assert(g_sent.type == (result ? Y_RESULT : Y_ERROR), "C19 the reply type is result exactly when the request was accepted, error otherwise");
+    vp_assert(g_sent.nchildren == (result ? 0 : 1) && g_sent.kind == (result ? K_NONE : K_ERROR), "C19 an acknowledgement is empty, an error reply carries exactly the error element");
+    vp_assert(result || (g_sent.etype == etype && g_sent.cond == cond && g_sent.nsOk), "C19 error reply: the expected error type and stanza error condition");
 }
 
 // ------------------------------------------------------------------------------------------------ (1) receiver: one data block
@@ -226,7 +257,8 @@ static void dataStep(bool kfDemo)
     QXmppTransferJobPrivate *jd = attachJobPrivate(job);
     JobPre pre; symJob(jd, pre, kfDemo);
     md->jobs.append(job);
-    vp_c19_dev_init(theDevice(), true, false);
+    const bool wfail = vp_bool();                 // the local device may refuse the write (QIODevice::write returns -1)
+    vp_c19_dev_init(theDevice(), true, wfail);
 
     // the block: any sender, session id, 16-bit sequence number, payload
     const QString from = vpSymString(C19_JIDLEN), sid = vpSymString(C19_SIDLEN), id = vpSymString(C19_IDLEN);
@@ -235,27 +267,29 @@ static void dataStep(bool kfDemo)
     QXmppIbbDataIq iq;
     iq.setFrom(from); iq.setId(id); iq.setSid(sid); iq.setSequence(quint16(seq)); iq.setPayload(payload);
 
+    g_exp.to = from; g_exp.id = id;
     m->ibbDataIqReceived(iq);
 
     const bool match = pre.direction == QXmppTransferJob::IncomingDirection && pre.jid == from && pre.sid == sid;
     const bool live = match && pre.method == QXmppTransferJob::InBandMethod && pre.state == QXmppTransferJob::TransferState;
     const bool inSeq = unsigned(pre.seq & 0xffff) == seq;          // XEP-0047: seq is a 16-bit counter that wraps
     const bool accept = live && inSeq;
+    const bool stored = accept && !wfail;
     const int n = payload.size();
-    if (accept) expectReply(from, id, true, QString(), QString());
-    else if (live) expectReply(from, id, false, L("unexpected-request"), L("cancel"));
-    else expectReply(from, id, false, L("item-not-found"), L("cancel"));
+    // the reply to a block the local device refused is not constrained by the property (the code acknowledges it; the size /
+    // hash check at close then reports the loss)
+    if (!(accept && wfail)) expectReply(accept, live ? C_UNEXPECTED_REQUEST : C_ITEM_NOT_FOUND, T_CANCEL);
     vp_assert(vp_c19_dev_wcalls() == (accept ? 1u : 0u), "C19 a block is written exactly when it is accepted (right sender, session, state and sequence number)");
-    vp_assert(vp_c19_dev_wlen() == (accept ? unsigned(n) : 0u), "C19 an accepted block is written completely, a refused block not at all");
-    for (int i = 0; i < C19_PAYLOAD; i++) { if (accept && i < n) vp_assert(vp_c19_dev_wbyte(i) == (unsigned char)payload.at(i), "C19 the bytes written are the bytes of the block"); }
-    vp_assert(jd->done == pre.done + (accept ? n : 0), "C19 the byte count grows by exactly the accepted block");
+    vp_assert(vp_c19_dev_wlen() == (stored ? unsigned(n) : 0u), "C19 an accepted block is written completely, a refused block not at all");
+    for (int i = 0; i < C19_PAYLOAD; i++) vp_assert(!(stored && i < n) || vp_c19_dev_wbyte(i) == (unsigned char)payload.at(i), "C19 the bytes written are the bytes of the block");
+    vp_assert(jd->done == pre.done + (stored ? n : 0), "C19 the byte count grows by exactly the bytes written");
     vp_assert((unsigned(jd->ibbSequence) & 0xffff) == ((unsigned(pre.seq) + (accept ? 1u : 0u)) & 0xffff), "C19 the expected sequence number advances by one (mod 2^16) exactly on an accepted block");
-    const bool hashed = accept && pre.hash.size() > 0;
-    vp_assert(vp_c19_hash_calls(&jd->hash) == (hashed ? 1u : 0u) && vp_c19_hash_len(&jd->hash) == (hashed ? unsigned(n) : 0u), "C19 the running hash is fed with exactly the accepted block when a hash was announced");
-    for (int i = 0; i < C19_PAYLOAD; i++) { if (hashed && i < n) vp_assert(vp_c19_hash_byte(&jd->hash, i) == (unsigned char)payload.at(i), "C19 the bytes hashed are the bytes written"); }
+    const bool hashed = stored && pre.hash.size() > 0;
+    vp_assert(vp_c19_hash_calls(&jd->hash) == (hashed ? 1u : 0u) && vp_c19_hash_len(&jd->hash) == (hashed ? unsigned(n) : 0u), "C19 the running hash is fed with exactly the written block when a hash was announced");
+    for (int i = 0; i < C19_PAYLOAD; i++) vp_assert(!(hashed && i < n) || vp_c19_hash_byte(&jd->hash, i) == (unsigned char)payload.at(i), "C19 the bytes hashed are the bytes written");
     vp_assert(int(jd->state) == pre.state && int(jd->error) == QXmppTransferJob::NoError && vp_c19_nqueued() == 0, "C19 a data block never finishes a transfer");
-    vp_assert(accept ? (g_nsig == 1 && g_sigKind[0] == SigProgress && g_sigObj[0] == job && g_sigA[0] == jd->done && g_sigB[0] == pre.size) : g_nsig == 0,
-              "C19 progress is reported with the new byte count for an accepted block, not at all for a refused one");
+    vp_assert(stored ? (g_nsig == 1 && g_sigKind[0] == SigProgress && g_sigObj[0] == job && g_sigA[0] == jd->done && g_sigB[0] == pre.size) : g_nsig == 0,
+              "C19 progress is reported with the new byte count for a stored block, not at all otherwise");
 }
 extern "C" void h_data_step() { dataStep(false); }
 extern "C" void h_data_step_kf() { dataStep(true); }
@@ -280,11 +314,11 @@ extern "C" void h_close_step()
     QXmppIbbCloseIq iq;
     iq.setFrom(from); iq.setId(id); iq.setSid(sid);
 
+    g_exp.to = from; g_exp.id = id;
     m->ibbCloseIqReceived(iq);
 
     const bool match = pre.direction == QXmppTransferJob::IncomingDirection && pre.jid == from && pre.sid == sid && pre.method == QXmppTransferJob::InBandMethod;
-    if (match) expectReply(from, id, true, QString(), QString());
-    else expectReply(from, id, false, L("item-not-found"), L("cancel"));
+    expectReply(match, C_ITEM_NOT_FOUND, T_CANCEL);
     const bool wasFinished = pre.state == QXmppTransferJob::FinishedState;
     const bool ends = match && !wasFinished;
     const bool sizeOk = pre.size == 0 || pre.done == pre.size;
@@ -332,14 +366,13 @@ extern "C" void h_open_step()
     QXmppIbbOpenIq iq;
     iq.setFrom(from); iq.setId(id); iq.setSid(sid); iq.setBlockSize(bs);
 
+    g_exp.to = from; g_exp.id = id;
     m->ibbOpenIqReceived(iq);
 
     const bool match = pre.direction == QXmppTransferJob::IncomingDirection && pre.jid == from && pre.sid == sid && pre.method == QXmppTransferJob::InBandMethod;
     const bool fits = bs <= long(limit);
     const bool accept = match && fits;
-    if (accept) expectReply(from, id, true, QString(), QString());
-    else if (match) expectReply(from, id, false, L("resource-constraint"), L("modify"));
-    else expectReply(from, id, false, L("item-not-found"), L("cancel"));
+    expectReply(accept, match ? C_RESOURCE_CONSTRAINT : C_ITEM_NOT_FOUND, match ? T_MODIFY : T_CANCEL);
     vp_assert(int(jd->state) == (accept ? int(QXmppTransferJob::TransferState) : pre.state), "C19 open starts exactly the addressed in-band job, and only with an acceptable block size");
     vp_assert(jd->blockSize == (accept ? int(bs) : pre.blockSize), "C19 the negotiated block size is the offered one");
     vp_assert(jd->done == pre.done && (unsigned(jd->ibbSequence) & 0xffff) == (unsigned(pre.seq) & 0xffff) && vp_c19_dev_wcalls() == 0 && vp_c19_nqueued() == 0, "C19 open neither writes nor finishes");
@@ -360,18 +393,21 @@ static void senderStep(bool viaDispatch)
     md->jobs.append(job);
     const bool devOpen = vp_bool();
     vp_c19_dev_init(theDevice(), devOpen, false);
-    const QByteArray block = vpSymBytes(C19_PAYLOAD);        // what the device yields next (empty = end of data)
+    // structural choices (one cbmc instance per combination, contents symbolic): the IQ type and the length of the next block
+    const int type = int(vp_case_u(0, 4));                   // Error, Get, Set, Result
+    const unsigned blen = vp_case_u(2, C19_PAYLOAD + 1);     // what the device yields next: 0 (end of data) .. C19_PAYLOAD bytes
+    QByteArray block; vp_c19_sym_bytes_n(&block, blen);
     vp_assume(block.size() <= pre.blockSize);                // QIODevice::read(max) contract
     vp_c19_dev_source(&block);
 
     const QString from = vpSymString(C19_JIDLEN), id = vpSymString(C19_IDLEN);
-    const int type = vp_u8(); vp_assume(type <= 3);          // Error, Get, Set, Result
     QXmppIq iq; iq.setType(QXmppIq::Type(type));
     iq.setFrom(from); iq.setId(id);
 
     // an IQ without a from attribute comes from the own server; _q_iqReceived routes it to the SOCKS5 proxy branch (outside)
     // and for jobs of another method it handles stream-initiation refusals / SOCKS5 activation (outside)
     if (viaDispatch) vp_assume(from.size() > 0 && pre.method == QXmppTransferJob::InBandMethod);
+    g_exp.to = pre.jid; g_exp.sid = pre.sid; g_exp.seq = QString::number(unsigned(pre.seq) & 0xffff); g_exp.payload = block; g_exp.idNow = &jd->requestId;
     if (viaDispatch) m->_q_iqReceived(iq); else m->ibbResponseReceived(iq);
 
     const bool match = pre.direction == QXmppTransferJob::OutgoingDirection && pre.jid == from && pre.requestId == id && pre.method == QXmppTransferJob::InBandMethod
@@ -382,20 +418,13 @@ static void senderStep(bool viaDispatch)
     const bool sendsClose = match && ((isResult && n == 0) || isError);
     vp_assert(vp_c19_dev_rcalls() == (match && isResult ? 1u : 0u), "C19 the sender reads the next block exactly on a result for its outstanding request");
     vp_assert(!(match && isResult) || vp_c19_dev_rmax() == (unsigned long long)pre.blockSize, "C19 the sender reads at most the negotiated block size");
-    vp_assert(g_nsent == (sendsData || sendsClose ? 1 : 0), "C19 the sender sends one stanza per acknowledged block and nothing on any other IQ");
-    if (g_nsent == 1 && (sendsData || sendsClose)) {
-        const QDomElement &a = g_sent[0];
-        vp_assert(a.tagName() == L("iq") && a.attribute(L("type")) == L("set") && a.attribute(L("to")) == pre.jid && a.attribute(L("id")) == jd->requestId,
-                  "C19 the next request goes to the peer as iq set and its id becomes the outstanding request id");
-        QDomElement c; vp_c19_dom_child(&c, &a, 0);
-        vp_assert(vp_c19_dom_nchildren(&a) == 1 && c.tagName() == (sendsData ? L("data") : L("close")) && c.namespaceURI() == L("http://jabber.org/protocol/ibb") && c.attribute(L("sid")) == pre.sid,
-                  "C19 a data element while the device yields bytes, a close element at end of data or after an error, for this session");
-        if (sendsData) {
-            vp_assert(c.attribute(L("seq")) == QString::number(unsigned(pre.seq) & 0xffff), "C19 blocks are numbered consecutively mod 2^16");
-            const QString text = c.text(); const QString want = QString::fromUtf8(block.toBase64());
-            vp_assert(text == want, "C19 the block carries exactly the bytes read from the device");
-        }
-    }
+    vp_assert(g_sent.n == (sendsData || sendsClose ? 1 : 0), "C19 the sender sends one stanza per acknowledged block and nothing on any other IQ");
+    const bool sent = g_sent.n == 1;
+    vp_assert(!sent || (g_sent.isIq && g_sent.type == Y_SET && g_sent.toOk && g_sent.idOk), "C19 the next request goes to the peer as iq set and its id is the new outstanding request id");
+    vp_assert(!sent || (g_sent.nchildren == 1 && g_sent.kind == (sendsData ? K_DATA : K_CLOSE) && g_sent.nsOk && g_sent.sidOk),
+              "C19 a data element while the device yields bytes, a close element at end of data or after an error, for this session");
+    vp_assert(!(sent && sendsData) || g_sent.seqOk, "C19 blocks are numbered consecutively mod 2^16");
+    vp_assert(!(sent && sendsData) || g_sent.payloadOk, "C19 the block carries exactly the bytes read from the device");
     vp_assert(jd->done == pre.done + (sendsData ? n : 0), "C19 the sender counts exactly the bytes it sent");
     vp_assert((unsigned(jd->ibbSequence) & 0xffff) == ((unsigned(pre.seq) + (sendsData ? 1u : 0u)) & 0xffff), "C19 the sender's sequence number advances by one per block sent");
     const int expState = sendsClose ? int(QXmppTransferJob::FinishedState) : (match && isResult ? int(QXmppTransferJob::TransferState) : pre.state);
@@ -406,3 +435,29 @@ static void senderStep(bool viaDispatch)
 }
 extern "C" void h_sender_step() { senderStep(false); }
 extern "C" void h_sender_dispatch() { senderStep(true); }
+
+// ------------------------------------------------------------------------------------------------ (5) job lookup with two jobs
+// getIncomingJobBySid / getOutgoingJobByRequestId return the FIRST job of the right direction whose peer JID and key are equal to
+// the ones asked for (exact string equality), otherwise null
+extern "C" void h_lookup()
+{
+    static MgrU mu; static InU j0, j1;
+    QXmppTransferManager *m = &mu.v;
+    QXmppTransferManagerPrivate *md = attachMgrPrivate(m);
+    QXmppTransferJob *job[2] = { &j0.v, &j1.v };
+    JobPre pre[2];
+    for (int i = 0; i < 2; i++) { QXmppTransferJobPrivate *jd = attachJobPrivate(job[i]); symJob(jd, pre[i]); md->jobs.append(job[i]); }
+    const unsigned njobs = vp_u8(); vp_assume(njobs <= 2);
+    if (njobs < 2) md->jobs.removeLast();
+    if (njobs < 1) md->jobs.removeLast();
+    const QString jid = vpSymString(C19_JIDLEN), key = vpSymString(C19_SIDLEN);
+    const bool bySid = vp_bool();
+    QXmppTransferJob *got = bySid ? static_cast<QXmppTransferJob *>(md->getIncomingJobBySid(jid, key)) : static_cast<QXmppTransferJob *>(md->getOutgoingJobByRequestId(jid, key));
+    QXmppTransferJob *want = nullptr;
+    for (int i = 1; i >= 0; i--) {
+        const bool hit = unsigned(i) < njobs && pre[i].direction == (bySid ? int(QXmppTransferJob::IncomingDirection) : int(QXmppTransferJob::OutgoingDirection))
+            && pre[i].jid == jid && (bySid ? pre[i].sid : pre[i].requestId) == key;
+        if (hit) want = job[i];
+    }
+    vp_assert(got == want, "C19 a stream request is attributed to the first job with the same direction, peer JID and session id / request id, to none otherwise");
+}
